@@ -1585,7 +1585,12 @@ func (eval Evaluator) InnerSum(ctIn *rlwe.Ciphertext, batchSize, n int, opOut *r
 
 	if l == N {
 		if n == 1 {
-			opOut.Copy(ctIn)
+			// The result is the input: the receiver takes its shape first (Copy alone keeps
+			// the surplus components of a receiver of higher degree).
+			if opOut != ctIn {
+				opOut.Resize(ctIn.Degree(), ctIn.Level())
+				opOut.Copy(ctIn)
+			}
 			return
 		}
 
